@@ -264,3 +264,84 @@ Section Subst.
     destruct (q_all q); [reflexivity|]. destruct (q_parts q) as [|s [|s' l]]; reflexivity.
   Qed.
 End Subst.
+
+(* ------------------------------------------------------------------ *)
+(* parameters as SKIP / LIMIT counts of the final RETURN *)
+
+(* a count: a number, or a parameter that must be bound to a non-negative integer *)
+Inductive cnt := CNum (n : N) | CPar (p : N).
+
+Definition resolve_cnt (pe : penv) (c : cnt) : outcome N :=
+  match c with
+  | CNum n => Ok n
+  | CPar p =>
+      match alookup p pe with
+      | Some (VInt z) => if Z.leb 0 z then Ok (Z.to_N z) else ErrT
+      | _ => ErrT
+      end
+  end.
+
+Definition inline_cnt (pe : penv) (c : cnt) : cnt :=
+  match c with
+  | CNum n => CNum n
+  | CPar p =>
+      match alookup p pe with
+      | Some (VInt z) => if Z.leb 0 z then CNum (Z.to_N z) else CPar p
+      | _ => CPar p
+      end
+  end.
+
+Definition resolve_ocnt (pe : penv) (o : option cnt) : outcome (option N) :=
+  match o with None => Ok None | Some c => obind (resolve_cnt pe c) (fun n => Ok (Some n)) end.
+
+(* a query whose last part's RETURN takes its SKIP / LIMIT from [wq_skip] / [wq_limit] *)
+Record wquery := WQ { wq_query : query; wq_skip : option cnt; wq_limit : option cnt }.
+
+Definition set_window_proj (s l : option N) (p : proj) : proj :=
+  PJ (p_distinct p) (p_items p) (p_order p) s l.
+Fixpoint set_window_last (s l : option N) (parts : list squery) : list squery :=
+  match parts with
+  | [] => []
+  | [x] => [SQ (q_clauses x) (set_window_proj s l (q_ret x))]
+  | x :: rest => x :: set_window_last s l rest
+  end.
+Definition set_window (s l : option N) (q : query) : query := Q (set_window_last s l (q_parts q)) (q_all q).
+
+Definition eval_wquery_cfg (cf : cfg) (g : graph) (pe : penv) (w : wquery) : outcome table :=
+  obind (resolve_ocnt pe (wq_skip w)) (fun s =>
+  obind (resolve_ocnt pe (wq_limit w)) (fun l =>
+    eval_query_cfg cf g pe (set_window s l (wq_query w)))).
+
+Definition inline_wquery (pe : penv) (w : wquery) : wquery :=
+  WQ (inline pe (wq_query w)) (option_map (inline_cnt pe) (wq_skip w)) (option_map (inline_cnt pe) (wq_limit w)).
+
+Lemma resolve_cnt_inline pe c : resolve_cnt pe c = resolve_cnt [] (inline_cnt pe c).
+Proof.
+  destruct c as [n|p]; [reflexivity|]. cbn [resolve_cnt inline_cnt].
+  destruct (alookup p pe) as [[| | z | | | |]|]; try reflexivity.
+  destruct (Z.leb 0 z); reflexivity.
+Qed.
+
+Lemma resolve_ocnt_inline pe o : resolve_ocnt pe o = resolve_ocnt [] (option_map (inline_cnt pe) o).
+Proof. destruct o as [c|]; [|reflexivity]. cbn [resolve_ocnt option_map]. rewrite resolve_cnt_inline. reflexivity. Qed.
+
+Lemma set_window_last_inline pe s l parts :
+  map (inline_squery pe) (set_window_last s l parts) = set_window_last s l (map (inline_squery pe) parts).
+Proof.
+  induction parts as [|x [|y rest] IH]; [reflexivity | reflexivity |].
+  change (set_window_last s l (x :: y :: rest)) with (x :: set_window_last s l (y :: rest)).
+  cbn [map]. rewrite IH. reflexivity.
+Qed.
+
+Lemma set_window_inline pe s l q : inline pe (set_window s l q) = set_window s l (inline pe q).
+Proof. unfold inline, set_window. cbn [q_parts q_all]. rewrite set_window_last_inline. reflexivity. Qed.
+
+Theorem subst_wquery cf g pe w :
+  eval_wquery_cfg cf g pe w = eval_wquery_cfg cf g [] (inline_wquery pe w).
+Proof.
+  unfold eval_wquery_cfg, inline_wquery. cbn [wq_query wq_skip wq_limit].
+  rewrite <- !resolve_ocnt_inline.
+  destruct (resolve_ocnt pe (wq_skip w)) as [s| | |]; cbn [obind]; try reflexivity.
+  destruct (resolve_ocnt pe (wq_limit w)) as [l| | |]; cbn [obind]; try reflexivity.
+  rewrite <- set_window_inline. apply subst_query.
+Qed.
